@@ -300,6 +300,38 @@ def typeMapLookup (tm : List TypeMapEntry) (schema name col : String) : Option C
   | none => none
   | some e => e.cols.find? (·.name == col)   -- the inner map: last write wins, but column names are unique per table
 
+/-- the tables a compared column is looked up in: the aliased table, else the table of that name, else
+(no qualifier, or an unknown one) every table of the statement -/
+def searchTables (tables : List TableName) (aliasMap : List (String × TableName)) (alias : String) : List TableName :=
+  if alias != "" then
+    match (aliasMap.filter (·.1 == alias)).getLast? with
+    | some (_, orig) => [orig]
+    | none =>
+      match (tables.filter (·.name == alias)).getLast? with
+      | some fqn => [fqn]
+      | none => tables
+  else tables
+
+/-- the parameter a placeholder compared with column `key` of table `t` becomes -/
+def compareParam (names : List (Nat × String)) (num : Nat) (key : String) (t : TableName) (cc : CatCol) : Parameter :=
+  { number := num, column := some { name := parameterName names num key, dataType := colDT cc, notNull := cc.notNull, isArray := cc.isArray, table := some t } }
+
+def compareMatches (names : List (Nat × String)) (num : Nat) (key : String) (tm : List TypeMapEntry) (search : List TableName) : List Parameter :=
+  search.filterMap (fun t => (typeMapLookup tm t.schema t.name key).map (compareParam names num key t))
+
+/-- the comparison arm of resolveCatalogRefs once the column (alias, key) is known -/
+def resolveCompare (names : List (Nat × String)) (num : Nat) (key : String) (tm : List TypeMapEntry) (search : List TableName) : Res (List Parameter) :=
+  let found := compareMatches names num key tm search
+  if found.length == 0 then .error s!"42703:notexist:{key}"
+  else if found.length > 1 then .error s!"42703:ambiguous:{key}"
+  else .ok found
+
+/-- the INSERT-column / SET-target arm once the target table is known -/
+def resolveTarget (names : List (Nat × String)) (num : Nat) (key : String) (tm : List TypeMapEntry) (t : TableName) : Res (List Parameter) :=
+  match typeMapLookup tm t.schema t.name key with
+  | some col => .ok [{ number := num, column := some { name := parameterName names num key, dataType := (dataTypeOf col.tschema col.tname), notNull := col.notNull, isArray := col.isArray, table := some { schema := t.schema, name := t.name } } }]
+  | none => .error s!"42703:notexist:{key}"
+
 def resolveOne (c : Cat) (names : List (Nat × String)) (tables : List TableName)
     (aliasMap : List (String × TableName)) (tm : List TypeMapEntry) (defaultTable : Option TableName)
     (ref : ParamRef) : Res (List Parameter) :=
@@ -324,25 +356,7 @@ def resolveOne (c : Cat) (names : List (Nat × String)) (tables : List TableName
                | [a, k] => some (a, k)
                | _ => none) with
         | none => .error s!"panic:too many field items: {items.length}"
-        | some (alias, key) =>
-          let search : List TableName :=
-            if alias != "" then
-              match (aliasMap.filter (·.1 == alias)).getLast? with
-              | some (_, orig) => [orig]
-              | none =>
-                match (tables.filter (·.name == alias)).getLast? with
-                | some fqn => [fqn]
-                | none => tables
-            else tables
-          let mk (t : TableName) (cc : CatCol) : Parameter :=
-            let nm := parameterName names num key
-            let dt := colDT cc
-            let column : Column := { name := nm, dataType := dt, notNull := cc.notNull, isArray := cc.isArray, table := some t }
-            { number := num, column := some column }
-          let found := search.filterMap (fun t => (typeMapLookup tm t.schema t.name key).map (mk t))
-          if found.length == 0 then .error s!"42703:notexist:{key}"
-          else if found.length > 1 then .error s!"42703:ambiguous:{key}"
-          else .ok found
+        | some (alias, key) => resolveCompare names num key tm (searchTables tables aliasMap alias)
     | "FuncCall" =>
       let argsN := n.get "Args"
       if argsN.isNull then .error "panic:resolve.go: n.Args is nil" else
@@ -393,10 +407,7 @@ def resolveOne (c : Cat) (names : List (Nat × String)) (tables : List TableName
             | none => .error "panic:resolve.go: defaultTable is nil"
         match tbl with
         | .error e => .error e
-        | .ok t =>
-          match typeMapLookup tm t.schema t.name key with
-          | some col => .ok [{ number := num, column := some { name := parameterName names num key, dataType := (dataTypeOf col.tschema col.tname), notNull := col.notNull, isArray := col.isArray, table := some { schema := t.schema, name := t.name } } }]
-          | none => .error s!"42703:notexist:{key}"
+        | .ok t => resolveTarget names num key tm t
     | "TypeCast" =>
       let tn := n.get "TypeName"
       if tn.isNull then .error "other:*ast.TypeCast has nil type name" else
@@ -433,22 +444,35 @@ def qcGetTable (c : Cat) (ctes : Ctes) (rel : TableName) : Res Table :=
     let src ← catGetTable c rel
     pure { rel := rel, columns := src.cols.map (convertColumn rel) }
 
+/-- the (alias, column) a one- or two-part column reference names -/
+def refParts (node : Node) : Option (String × String) :=
+  match (node.get "Fields").stringItems with
+  | [n] => some ("", n)
+  | [a, n] => some (a, n)
+  | _ => none
+
+/-- every column of every table in scope that a reference (alias, name) matches, as result columns -/
+def refMatches (resName : Option String) (tables : List Table) (alias name : String) : List Column :=
+  tables.flatMap (fun t =>
+    if alias != "" && t.rel.name != alias then []
+    else (t.columns.filter (·.name == name)).map (fun c =>
+      ({ name := resName.getD c.name, table := c.table, dataType := c.dataType, notNull := c.notNull, isArray := c.isArray } : Column)))
+
 def outputColumnRefs (res : Node) (tables : List Table) (node : Node) : Res (List Column) :=
-  let parts := (node.get "Fields").stringItems
-  match (match parts with
-         | [n] => some ("", n)
-         | [a, n] => some (a, n)
-         | _ => none) with
-  | none => .error s!"other:unknown number of fields: {parts.length}"
+  match refParts node with
+  | none => .error s!"other:unknown number of fields: {((node.get "Fields").stringItems).length}"
   | some (alias, name) =>
-    let cols := tables.flatMap (fun t =>
-      if alias != "" && t.rel.name != alias then []
-      else (t.columns.filter (·.name == name)).map (fun c =>
-        let cname := match (res.get "Name").strOpt with | some n => n | none => c.name
-        ({ name := cname, table := c.table, dataType := c.dataType, notNull := c.notNull, isArray := c.isArray } : Column)))
+    let cols := refMatches ((res.get "Name").strOpt) tables alias name
     if cols.length == 0 then .error s!"42703:notexist:{name}"
     else if cols.length > 1 then .error s!"42703:ambiguous:{name}"
     else .ok cols
+
+/-- the columns a `*` / `scope.*` target contributes (the star arm of outputColumns) -/
+def starColumns (tables : List Table) (scope : String) (resName : Option String) : List Column :=
+  tables.flatMap (fun t =>
+    if scope != "" && scope != t.rel.name then []
+    else t.columns.map (fun c =>
+      ({ name := resName.getD c.name, scope := scope, table := c.table, dataType := c.dataType, notNull := c.notNull, isArray := c.isArray } : Column)))
 
 def isComparison (op : String) : Bool := Gen.comparisonOperators.contains op
 def isMathematical (op : String) : Bool := Gen.mathematicalOperators.contains op
@@ -530,10 +554,7 @@ def outputColumnsF (c : Cat) : Nat → Ctes → Node → Res (List Column × Cte
         | "ColumnRef" =>
           if hasStarRef v then
             let scope := (v.get "Fields").joinStrings "."
-            pure (cols ++ tables.flatMap (fun t =>
-              if scope != "" && scope != t.rel.name then []
-              else t.columns.map (fun c =>
-                ({ name := resName.getD c.name, scope := scope, table := c.table, dataType := c.dataType, notNull := c.notNull, isArray := c.isArray } : Column))))
+            pure (cols ++ starColumns tables scope resName)
           else do
             let columns ← outputColumnRefs res tables v
             pure (cols ++ columns)
@@ -622,6 +643,23 @@ def quoteIdent (engine ident : String) : String :=
 def countName (tables : List Table) (n : String) : Nat :=
   (tables.flatMap (fun t => t.columns.filter (·.name == n))).length
 
+/-- what one column of a star is written as (the inner loop body of expandStmt) -/
+def starName (engine : String) (tables : List Table) (scope : String) (resName : Option String) (t : Table) (column : Column) : String :=
+  let tableName := quoteIdent engine t.rel.name
+  let scopeName := quoteIdent engine scope
+  let cname := resName.getD column.name
+  let cname := quoteIdent engine cname
+  let cname := if scope != "" then scopeName ++ "." ++ cname else cname
+  -- `counts` is filled only when scope == "", and is consulted with the final (quoted / scoped) name
+  let cnt := if scope == "" then countName tables cname else 0
+  if cnt > 1 then tableName ++ "." ++ cname else cname
+
+/-- the identifiers a `*` / `scope.*` target is replaced by (the star loop of expandStmt) -/
+def starNames (engine : String) (tables : List Table) (scope : String) (resName : Option String) : List String :=
+  tables.flatMap (fun t =>
+    if scope != "" && scope != t.rel.name then []
+    else t.columns.map (starName engine tables scope resName t))
+
 def expandStmt (c : Cat) (ctes : Ctes) (stmtLocation : Int) (node : Node) : Res (List SEdit × Ctes) := do
   let (tables, ctes) ← sourceTables c ctes node
   let targets : Node := match node.kind with
@@ -638,18 +676,7 @@ def expandStmt (c : Cat) (ctes : Ctes) (stmtLocation : Int) (node : Node) : Res 
     let parts := fieldsN.map (fun f => if f.isKind "String" then (f.get "Str").strVal else "*")
     let scope := (ref.get "Fields").joinStrings "."
     let resName := (res.get "Name").strOpt
-    let cols := tables.flatMap (fun t =>
-      if scope != "" && scope != t.rel.name then []
-      else
-        let tableName := quoteIdent c.engine t.rel.name
-        let scopeName := quoteIdent c.engine scope
-        t.columns.map (fun column =>
-          let cname := resName.getD column.name
-          let cname := quoteIdent c.engine cname
-          let cname := if scope != "" then scopeName ++ "." ++ cname else cname
-          -- `counts` is filled only when scope == "", and is consulted with the final (quoted / scoped) name
-          let cnt := if scope == "" then countName tables cname else 0
-          if cnt > 1 then tableName ++ "." ++ cname else cname))
+    let cols := starNames c.engine tables scope resName
     let old := ".".intercalate (parts.map (quoteIdent c.engine))
     pure (edits ++ [{ location := (res.get "Location").intVal - stmtLocation, old := old, new := ", ".intercalate cols }])) []
   pure (edits, ctes)
